@@ -1,6 +1,7 @@
 package main
 
 import (
+	"errors"
 	"strings"
 	"fmt"
 
@@ -408,8 +409,21 @@ func runC09(c *mon.Ctx) {
 			for _, st := range steps {
 				kinds = append(kinds, st.kind)
 			}
-			c.Case("reuse:"+string(ver), map[string]any{"version": ver, "steps": kinds, "mix_rooms": mixRooms}, func() {
+			flakyAt := 0
+			if r.Chance(0.5) {
+				flakyAt = r.Range(1, 8) // the sender lookup of the reused checker fails once, at this call of it
+			}
+			c.Case("reuse:"+string(ver), map[string]any{"version": ver, "steps": kinds, "mix_rooms": mixRooms, "sender_lookup_fails_once_at_call": flakyAt}, func() {
 				prov, _ := gmsl.NewAuthEvents(nil)
+				lookups, faultedNow := 0, false
+				flaky := func(roomID spec.RoomID, senderID spec.SenderID) (*spec.UserID, error) {
+					lookups++
+					if lookups == flakyAt {
+						faultedNow = true
+						return nil, errors.New("scripted fault (once)")
+					}
+					return userIDForSender(roomID, senderID)
+				}
 				var chk *gmsl.VerifAllower
 				c.Count("reuse_sequences")
 				if interesting {
@@ -428,8 +442,9 @@ func runC09(c *mon.Ctx) {
 						for _, p := range st.state {
 							_ = prov.AddEvent(p)
 						}
+						faultedNow = false
 						if chk == nil {
-							chk = gmsl.NewVerifAllower(prov, userIDForSender, st.ev.RoomID())
+							chk = gmsl.NewVerifAllower(prov, flaky, st.ev.RoomID())
 						} else {
 							chk.Update(prov)
 						}
@@ -456,6 +471,15 @@ func runC09(c *mon.Ctx) {
 						return v, ""
 					}(); pan == "" && viaProvider != fresh {
 						c.Failf("reuse:cleared-provider-verdict-differs:"+fresh+"-on-a-fresh-provider", "v%s: step %d (%s) is %s with a fresh provider but %s with a provider that was cleared and refilled\nsequence: %v\nevent: %s\nstate: %v", ver, i, st.kind, fresh, viaProvider, hist, st.ev.JSON(), describeState(st.state))
+						return
+					}
+					if faultedNow {
+						// the lookup failed during this very evaluation: whatever it answered, it is the later ones that count
+						c.Count("reuse_evaluations_hit_by_the_single_lookup_fault")
+						continue
+					}
+					if reused != fresh && flakyAt > 0 && lookups >= flakyAt {
+						c.Failf("reuse:verdict-differs:after-a-sender-lookup-that-failed-once:"+fresh+"-on-its-own", "v%s: step %d (%s) is %s on its own but %s through the reused checker, whose sender lookup had failed once at an earlier step (call %d)\nsequence: %v\nevent: %s", ver, i, st.kind, fresh, reused, flakyAt, hist, st.ev.JSON())
 						return
 					}
 					if reused != fresh {
